@@ -1,4 +1,4 @@
-"""pyvc.bounded -- run a replay driver as a bounded stand-in (labelled B, never counted as discharged)."""
+"""pvc.bounded -- run a replay driver as a bounded stand-in (labelled B, never counted as discharged)."""
 import json, os, subprocess, time
 from .result import Result
 
